@@ -53,6 +53,13 @@ Proof.
   apply (frame_encode_wellformed _ _ _ He).
 Qed.
 
+(* the setters outside the handshake's footprint - relay_select_host, the relay passwords, connect_timeout, tcp_nodelay,
+   relay_websocket ([OOther]; their regenerated footprints are disjoint from every option above) - can be dropped from any call
+   sequence: the configuration the handshake is built from (every ISI field, the size mode, the protocol) is the same *)
+Theorem c18_relay_options_do_not_reach_the_handshake : forall ops1 ops2,
+  build (ops1 ++ OOther :: ops2) = build (ops1 ++ ops2).
+Proof. exact other_setter_is_invisible. Qed.
+
 (* every setter of the source assigns exactly the fields the model's setter changes (regenerated footprints): in particular
    relay() touches the protocol only and the size mode is written by mode() alone *)
 Theorem c18_setters_touch_only_their_own_option : footprints_tied = true.
